@@ -109,6 +109,22 @@ def prior_numbers(prior):
     return float(m.group(1)), float(m.group(2))
 
 
+def spell(mode, upper):
+    """The mode string handed to set_mode: `mode` (lower case in the specification) with the letters at the
+    1-based positions `upper` written in upper case ('log', [1, 2, 3] -> 'LOG')."""
+    up = set(int(i) for i in (upper or ()))
+    return ''.join(ch.upper() if i + 1 in up else ch for i, ch in enumerate(mode))
+
+
+def container(seq, kind):
+    """The sequence type in which a vector / pair is handed over: list (default), tuple or ndarray."""
+    if kind == 'tuple':
+        return tuple(seq)
+    if kind == 'array':
+        return np.array(seq, dtype=float)
+    return list(seq)
+
+
 def make_prior(pr):
     from taurex.core.priors import Uniform, LogUniform, Gaussian, LogGaussian
     k, a, b = pr['kind'], pr['a'], pr['b']
@@ -121,6 +137,10 @@ def make_prior(pr):
     if k == 'LogGaussian':
         return LogGaussian(mean=float(a), std=float(b))
     raise ValueError(k)
+
+
+class BadEvent(Exception):
+    """An event the harness does not know (a mistake of the harness, never a verdict)."""
 
 
 class Real:
@@ -150,13 +170,13 @@ class Real:
             elif op == 'disable_fit':
                 o.disable_fit(ev['p'])
             elif op == 'set_mode':
-                o.set_mode(ev['p'], ev.get('m', 'linear'))
+                o.set_mode(ev['p'], spell(ev.get('m', 'linear'), ev.get('cs')))
             elif op == 'set_boundary':
                 x = ev.get('x', [0, 1])
-                o.set_boundary(ev['p'], (p10(x[0]), p10(x[1])))
+                o.set_boundary(ev['p'], container((p10(x[0]), p10(x[1])), ev.get('c', 'tuple')))
             elif op == 'set_factor_boundary':
                 x = ev.get('x', [0, 1])
-                o.set_factor_boundary(ev['p'], (p10(x[0]), p10(x[1])))
+                o.set_factor_boundary(ev['p'], container((p10(x[0]), p10(x[1])), ev.get('c', 'tuple')))
             elif op == 'set_prior':
                 o.set_prior(ev['p'], make_prior(ev.get('pr', dict(kind='Uniform', a=0, b=1))))
             elif op == 'enable_derived':
@@ -167,16 +187,18 @@ class Real:
                 o.compile_params()
             elif op == 'update_model':
                 # entry i goes to prior i: a log prior is handed the exponent, a linear one 10^exponent
+                # (the vector may be shorter or longer than the fitted set: entries without a prior are linear)
                 if psp is None:
                     psp = ['log' if q.priorMode is PriorMode.LOG else 'linear' for q in o.fitting_priors]
-                vec = [float(k) if psp[i] == 'log' else p10(k) for i, k in enumerate(ev['x'])]
+                vec = [float(k) if i < len(psp) and psp[i] == 'log' else p10(k) for i, k in enumerate(ev['x'])]
+                vec = container(vec, ev.get('c', 'list'))
                 o.update_model(vec)
             elif op == 'write_back':
                 o.update_model(o.fit_values)
             else:
-                raise RuntimeError('unknown op ' + op)
+                raise BadEvent('unknown op ' + op)
             return False
-        except RuntimeError:
+        except BadEvent:
             raise
         except Exception as e:      # the property only says "is an error"
             self.last_exc = repr(e)
@@ -213,8 +235,14 @@ class Real:
             out['ok'] = False
             out['why'] = repr(e)
         for p in PARAMS:
-            out['val'][p] = float(self.getter(p)())
-        out['others_same'] = (self.others() == self.others0)
+            try:                 # a value that is not a number any more is a verdict (nan never compares equal)
+                out['val'][p] = float(self.getter(p)())
+            except Exception:
+                out['val'][p] = float('nan')
+        try:
+            out['others_same'] = (self.others() == self.others0)
+        except Exception:
+            out['others_same'] = False
         return out
 
 
